@@ -189,7 +189,36 @@ def snippet(rng, words, depth=0):
     p = payload(rng, words)
     if depth < 2 and rng.random() < 0.3:
         p = snippet(rng, words, depth + 1)
-    k = rng.randrange(20)
+    k = rng.randrange(32)
+    q = p.replace(b'"', b"").replace(b"'", b"")
+    if k == 20:
+        return b"".join(b"&#x%02x;" % c for c in p[:40]) if rng.random() < 0.5 else b"".join(b"&#%d;" % c for c in p[:40])
+    if k == 21:
+        try:
+            return p.decode("latin-1").encode("utf-16-le")
+        except Exception:  # noqa: BLE001
+            return p
+    if k == 22:
+        return b"unescape('" + b"".join(b"%%%02x" % c for c in p[:40]) + b"')"
+    if k == 23:
+        return rng.choice([b"kernel32.dll", b"load evil_helper.dll now", b"/usr/local/bin/payload.sh", b"../opt/tool/run.bin", b"./tmp/dropper/stage2.elf"])
+    if k == 24:
+        return b'Replace("' + q.replace(b"e", b"_") + b'", "_", "e")'
+    if k == 25:
+        return b'"' + q.replace(b"t", b"#") + b'" -replace "#","t"'
+    if k == 26:
+        return b'"' + q.replace(b"a", b"~") + b'".replace(/~/g, "a")'
+    if k == 27:
+        return b" ".join(b"%02x" % c for c in p[:60]) if rng.random() < 0.5 else b", ".join(b"%02X" % c for c in p[:60])
+    if k == 28:
+        return rng.choice([b"0x7f.0x0.0x0.0x1", b"0300.0250.0001.0012", b"http://0xC0A80101/x", b"3232235777", b"192.168.001.010"])
+    if k == 29:
+        return b"[System.Convert]::FromHexString('" + binascii.hexlify(p) + b"')"
+    if k == 30:
+        body = (p * (1 + 520 // max(1, len(p))))[:520]
+        return b"[Byte[]] $b = " + b",".join(b"%d" % c for c in body)
+    if k == 31:
+        return b"http://evil.example.com/a%2Fb/../c/./d.exe?x=%41"
     if k == 16:
         key = rng.choice([7, 35, 77, 128, 255])
         return b'[System.Convert]::FromBase64String("' + base64.b64encode(bytes(c ^ key for c in p)) + b'") -bxor ' + str(key).encode()
